@@ -278,7 +278,7 @@ def run_check(prop, tier, seed):
         os.makedirs(os.path.join(REPLAY_DIR, prop), exist_ok=True)
         seen_mech = set()
         for f in violations:
-            if f['mechanism'] in seen_mech and len(replay_paths) >= 3:
+            if f['mechanism'] in seen_mech:
                 continue
             seen_mech.add(f['mechanism'])
             body = {'property': prop, 'tier': tier, 'seed': seed,
